@@ -1,6 +1,7 @@
 package main
 
 import (
+	btapb "cloud.google.com/go/bigtable/admin/apiv2/adminpb"
 	"encoding/binary"
 	"fmt"
 	"sort"
@@ -22,7 +23,7 @@ func init() {
 		Assume: []string{"porcupine verdict Unknown (timeout) is counted, never reported", "the cooperative table mutex follows sync.RWMutex (a waiting writer keeps new readers out; readers queued at a release go first)"},
 		Run:    runC06,
 	})
-	expectedProbes["C06"] = []string{"c06.concurrent_increments", "c06.cam_race", "c06.multi_mutation_vs_reader", "c06.overlapping_ops", "c06.invalid_kth", "c06.porcupine_ok"}
+	expectedProbes["C06"] = []string{"c06.concurrent_increments", "c06.cam_race", "c06.multi_mutation_vs_reader", "c06.overlapping_ops", "c06.invalid_kth", "c06.porcupine_ok", "c06.write_during_family_drop"}
 }
 
 type c06In struct {
@@ -215,6 +216,10 @@ func setCell(fam, q string, ts int64, v string) *btpb.Mutation {
 
 func runC06(r *Run) {
 	cfg := r.T.S("cfg")
+	if cfg.Intn(12) == 11 || r.Index == 7 {
+		c06DropFamilyVsWriters(r, cfg)
+		return
+	}
 	engine := []string{engLdbMem, engBtree, engLdbMem, engBtree, engLdbDisk}[cfg.Intn(5)]
 	if r.Tier == "quick" && engine == engLdbDisk && cfg.Intn(3) != 0 {
 		engine = engLdbMem
@@ -481,4 +486,110 @@ func joinLines(l []string) string {
 		s += x
 	}
 	return s
+}
+
+// c06DropFamilyVsWriters: a table of a few hundred rows; one task drops a family that every row
+// holds cells in (the purge walks the whole table) while other tasks write single rows in another
+// family. A single-row write that was acknowledged takes effect entirely: whatever the purge does
+// to the dropped family, none of the acknowledged cells of the other family may be missing
+// afterwards.
+func c06DropFamilyVsWriters(r *Run, cfg *Stream) {
+	engine := []string{engLdbMem, engLdbMem, engLdbDisk}[cfg.Intn(3)]
+	nRows := []int{40, 150, 260}[cfg.Intn(3)]
+	nWriters := 1 + cfg.Intn(3)
+	clk := NewClock(1_700_000_000_000_321, 1_700_000_000_000_000_000)
+	w := NewBTWorld(r, engine, clk, "")
+	defer w.Destroy()
+	const tbl = "projects/p/instances/i/tables/t"
+	if _, err := w.CreateTable("projects/p/instances/i", "t", c06Fams); err != nil {
+		r.Fail("setup", "", "CreateTable: %v", err)
+		return
+	}
+	var entries []entryIn
+	for i := 0; i < nRows; i++ {
+		muts := mutList{setCell("f2", "d", 1000, "drop-me")}
+		if i%2 == 0 {
+			muts = append(muts, setCell("f1", "k", 1000, "keep"))
+		}
+		entries = append(entries, entryIn{Key: fmt.Sprintf("row%04d", i), Muts: muts})
+	}
+	if !c16Write(r, w, tbl, entries) {
+		return
+	}
+	s := r.NewSched()
+	s.Budget = 2000000
+	acked := map[string][]string{} // row -> qualifiers of acknowledged f1 writes
+	dropDone := false
+	during := 0
+	for j := 0; j < nWriters; j++ {
+		j := j
+		ps := r.T.S(fmt.Sprintf("prog.%d", j))
+		var rows []int
+		for i := 0; i < 6; i++ {
+			rows = append(rows, record(ps, 2).n(nRows))
+		}
+		s.Go(fmt.Sprintf("w%d", j), func() {
+			for i, idx := range rows {
+				if r.Failed() {
+					return
+				}
+				k := fmt.Sprintf("row%04d", idx)
+				q := fmt.Sprintf("w%d.%d", j, i)
+				if err := w.MutateRow(tbl, k, mutList{setCell("f1", q, 2000, "acked")}); err != nil {
+					r.Fail("writer-failed", "", "MutateRow %q f1:%s: %v", k, q, err)
+					return
+				}
+				acked[k] = append(acked[k], q)
+				if !dropDone {
+					during++
+				}
+			}
+		})
+	}
+	s.Go("drop", func() {
+		_, err := w.ModifyFamilies(tbl, []*btapb.ModifyColumnFamiliesRequest_Modification{{Id: "f2", Mod: &btapb.ModifyColumnFamiliesRequest_Modification_Drop{Drop: true}}})
+		dropDone = true
+		if err != nil {
+			r.Fail("drop-failed", "", "ModifyColumnFamilies(drop f2): %v", err)
+		}
+	})
+	v := s.Run()
+	r.FinishSched(s, v)
+	r.Sample = map[string]interface{}{"mode": "drop-family-vs-writers", "engine": engine, "rows": nRows, "writers": nWriters, "steps": s.Steps, "preemptions": s.Pre, "writes_before_drop_returned": during}
+	if r.Failed() {
+		return
+	}
+	if during > 0 {
+		r.Probe("c06.write_during_family_drop")
+	}
+	rr := w.ReadAll(tbl)
+	if rr.Err != nil || rr.Bad != nil {
+		r.Fail("read-failed", "", "%v %v", rr.Err, rr.Bad)
+		return
+	}
+	got := map[string]map[string]bool{}
+	for _, row := range rr.Rows {
+		got[row.Key] = map[string]bool{}
+		for _, c := range row.Cells {
+			if c.Fam == "f2" {
+				r.Fail("dropped-family-visible", "", "row %q still shows a cell of the dropped family: %s", row.Key, row)
+				return
+			}
+			got[row.Key][c.Qual] = true
+		}
+	}
+	var ks []string
+	for k := range acked {
+		ks = append(ks, k)
+	}
+	sort.Strings(ks)
+	for _, k := range ks {
+		for _, q := range acked[k] {
+			if !got[k][q] {
+				r.Fail("lost-update", "", "MutateRow %q f1:%s was acknowledged while a family drop was purging the table, but the cell is gone afterwards (row now: %v)", k, q, got[k])
+				return
+			}
+		}
+		r.Mix(k + fmt.Sprint(len(acked[k])))
+	}
 }
